@@ -124,7 +124,10 @@ def run(spec):
     elif spec['mode'] == 'family':
         table = {}
         ns = [n for n in (1, 2, 4, 8, 16, 32, 64) if n <= spec['nmax']]
+        stop = False
         for n in ns:
+            if stop:
+                break
             files, main, uses = cycles.family(spec['family'], n)
             case_dir = os.path.join(run_dir, 'c15-%s-%d' % (spec['id'], n))
             _write(case_dir, files)
@@ -136,7 +139,13 @@ def run(spec):
                     wk, nres = _measure(rec, script, m, line, col,
                                         {'case': spec['id'], 'kind': 'family', 'family': spec['family'], 'n': n})
                     if wk is not None:
-                        table.setdefault('%d/%s' % (ui, m), {})[n] = wk
+                        row = table.setdefault('%d/%s' % (ui, m), {})
+                        row[n] = wk
+                        prev = [k for k in row if k < n]
+                        if prev and wk > 6 * row[max(prev)] + SLACK:
+                            stop = True   # the envelope is already broken: larger n only burn time
+                    else:
+                        stop = True
         for q, row in table.items():
             pts = sorted(row)
             for a, b in zip(pts, pts[1:]):
